@@ -11,7 +11,7 @@ from typing import Callable, Dict, List, Optional, Set, Tuple
 
 from ..astutil import Origins, call_name, const_num, names_in
 from ..cfg import Conditions, ReachingDefs
-from ..loader import FuncInfo, Program, enclosing_stmt, short, walk_own
+from ..loader import FuncInfo, Program, enclosing_stmt, parent, short, walk_own
 from ..report import BAD, INFO, OK, UNDET, Instance
 
 Cond = Tuple[ast.AST, bool]
@@ -226,7 +226,34 @@ def grid_compat(prog: Program) -> List[Instance]:
         st = enclosing_stmt(n)
         cs = conds_at(cond, st)
         arg = short(n.args[0]) if n.args else "?"
-        ok = any(p and has_call(e, "is_almost_int", lambda c: c.args and short(c.args[0]) == arg and _arg_is(c, 1, "tol", "tol")) for e, p in cs)
+        org_bb = Origins(bb)
+
+        def _tol_from_param(c: ast.Call) -> bool:
+            """The tolerance handed to is_almost_int is the `tol` parameter, or is derived from it and only widened
+            by a floating-point-spacing term (k * ulp(..) / ..): no fixed fraction of a pixel is let in."""
+            a = c.args[1] if len(c.args) > 1 else next((k.value for k in c.keywords if k.arg == "tol"), None)
+            if a is None:
+                return False
+            if isinstance(a, ast.Name) and a.id == "tol":
+                return True
+            cl = org_bb.closure(a)
+            if not any(isinstance(x, ast.Name) and x.id == "tol" for x in cl):
+                return False
+            for x in cl:
+                if isinstance(x, ast.Constant) and isinstance(x.value, (int, float)) and not isinstance(x.value, bool) and abs(x.value) >= 1e-3:
+                    # only as a factor of an ulp()/spacing()/finfo().eps term, or as an index
+                    q, spacing = x, False
+                    while q is not None and not isinstance(q, ast.stmt):
+                        if isinstance(q, ast.Subscript) and q.slice is x:
+                            spacing = True
+                        if isinstance(q, ast.BinOp) and isinstance(q.op, (ast.Mult, ast.Div)) and any(isinstance(y, ast.Call) and call_name(y) in ("ulp", "spacing", "nextafter") or (isinstance(y, ast.Attribute) and y.attr == "eps") for y in ast.walk(q)):
+                            spacing = True
+                        q = parent(q)
+                    if not spacing and x.value != 0:
+                        return False
+            return True
+
+        ok = any(p and has_call(e, "is_almost_int", lambda c: c.args and short(c.args[0]) == arg and _tol_from_param(c)) for e, p in cs)
         out.append(Instance("R-GUARDSEQ", f"{bb.qual}#grid:round:{arg}", OK if ok else BAD,
                             f"round({arg}) only after is_almost_int({arg}, tol) held" if ok else f"round({arg}) without the near-integer guard on {arg}: sub-pixel shifted grids are silently snapped", bb.where(n)))
     # a value accepted as near-integer must be converted with round(), not truncated
